@@ -46,7 +46,7 @@ KEEP_QUICK, KEEP_THOROUGH = 64, 512
 SPLIT = 8
 
 # fates of one live tracked worker in one round
-SURVIVE, DIE_PRE, DIE_MID, EXIT_OK = "0", "1", "2", "3"
+SURVIVE, DIE_PRE, DIE_MID, EXIT_OK, RETRY = "0", "1", "2", "3", "4"
 
 
 # ---------------------------------------------------------------------------
@@ -96,6 +96,7 @@ class FakeProcess:
         self.inv: str | None = None
         self.ctx: Any = None
         self.finished = False
+        self.retried = False
 
     def start(self) -> None:
         if self.started:
@@ -387,7 +388,9 @@ def initial_pool(cfg: dict) -> tuple[int, int]:
 
 
 def fates(cfg: dict) -> str:
-    return SURVIVE + DIE_PRE + DIE_MID + (EXIT_OK if cfg["runner"] == PR else "")
+    # ProcessRunner (one process per invocation) also: the worker finishes and exits / the worker's body asks for a
+    # retry: the invocation is re-queued from inside the child while the child process is still alive
+    return SURVIVE + DIE_PRE + DIE_MID + (EXIT_OK + RETRY if cfg["runner"] == PR else "")
 
 
 def operations(cfg: dict, n_live: int, mixed: bool) -> list[str]:
@@ -532,9 +535,19 @@ class Drive:
             raise RuntimeError(f"operation {op!r} does not fit {len(live)} live tracked workers")
         killed = 0
         for proc, fate in zip(live, op):
+            if fate == RETRY:
+                if proc.inv is not None:
+                    # what DistributedInvocation.run does in the child when the body raises a retriable error
+                    from pynenc.exceptions import RetryError
+
+                    self.orch.set_invocation_retry(proc.inv, RetryError("again"), proc.ctx)
+                    proc.inv = None  # the worker holds nothing any more; its process ends in a later round
+                    proc.retried = True
+                continue
             if fate == EXIT_OK:
-                self.orch.set_invocation_status(proc.inv, S.SUCCESS, proc.ctx)
-                proc.finished = True
+                if proc.inv is not None:
+                    self.orch.set_invocation_status(proc.inv, S.SUCCESS, proc.ctx)
+                    proc.finished = True
                 proc._die(0)
             elif fate == DIE_PRE:
                 proc._die(-9)
@@ -675,7 +688,7 @@ class Drive:
             if not isinstance(pr, FakeProcess):
                 out.append("?")
             elif pr.is_alive():
-                out.append("L")
+                out.append("R" if getattr(pr, "retried", False) else "L")
             else:
                 out.append("d" if pr.died_round == self.round_no else "D")
         return "".join(out)
